@@ -1,12 +1,14 @@
 #!/bin/bash
-# usage: tools_seed_batch.sh <PROP> <checks> [more checks for mutation 2]   -- evaluates /tmp/wt/<PROP>/MUTATION/patch{1,2}.diff
+# usage: tools_seed_batch.sh <PROP> <checks for m1> [<checks for m2>]   -- evaluates $WT_PREFIX<PROP>/MUTATION/patch{1,2}.diff
+#   env WT_PREFIX (default /tmp/wt/), NAME_TAG (default m) -> saved as seeded/<PROP>-<NAME_TAG><i>
 p="$1"; c1="$2"; c2="${3:-$2}"
+pre="${WT_PREFIX:-/tmp/wt/}"; tag="${NAME_TAG:-m}"
 cd /verif
 for i in 1 2; do
-  d=/tmp/wt/$p/MUTATION
+  d=$pre$p/MUTATION
   [ -f $d/patch$i.diff ] || continue
   ck=$c1; [ $i = 2 ] && ck=$c2
   needs=$(grep -v '^#' $d/notes$i.md | tr '\n' ' ' | cut -c1-900)
-  python3 tools_seed.py eval $d/patch$i.diff $d/demo$i.py $ck --save $p-m$i --prop $p --needs "$needs" --notes $d/notes$i.md > /tmp/wt/eval_$p-m$i.json 2>&1
-  echo "$p-m$i: $(python3 -c "import json,sys; s=open('/tmp/wt/eval_$p-m$i.json').read(); j=json.loads(s[:s.rindex('}')+1]); print('valid',j['valid_seed'],'caught_by',j['caught_by'])" 2>&1 | tail -1)"
+  python3 tools_seed.py eval $d/patch$i.diff $d/demo$i.py $ck --save $p-$tag$i --prop $p --needs "$needs" --notes $d/notes$i.md > /tmp/wt/eval_$p-$tag$i.json 2>&1
+  echo "$p-$tag$i: $(python3 -c "import json,sys; s=open('/tmp/wt/eval_$p-$tag$i.json').read(); j=json.loads(s[:s.rindex('}')+1]); print('applies',j['applies'],'valid',j.get('valid_seed'),'caught_by',j.get('caught_by'), [l for c in j.get('checks',[]) for l in c['lines'] if 'key=' in l][:1])" 2>&1 | tail -1 | cut -c1-330)"
 done
